@@ -716,6 +716,9 @@ class _AbstractSampler(_ABC):
         except Exception as e:
             # Any other exception, we don't know how to handle. Cleaning up (closing
             # the progressbar and the samples file) is done in the finally block.
+            # As for an interrupt, the current proposal was not finished: it is not
+            # counted in the acceptance rate or in the tuning histories.
+            self.current_proposal -= 1
             raise e
         finally:
             self.proposals_iterator.close()
